@@ -130,6 +130,13 @@ func (e *Engine) RunRoot(fn *ssa.Function) (err error) {
 		why := ""
 		if ws.All {
 			why = "write set is unbounded: " + ws.Why
+			// unbounded except for keys preserved by trusted frame clauses: fine when every forbidden key is preserved
+			ok = len(forbidden.Heap) > 0
+			for k := range forbidden.Heap {
+				if !ws.preserved(k) {
+					ok = false
+				}
+			}
 		}
 		for k := range forbidden.Heap {
 			if ws.Heap[k] {
@@ -681,10 +688,13 @@ func (e *Engine) havocWrites(s *State, fr *Frame, w *WriteSet, hint string) {
 	if w.All {
 		e.abstract("havoc of the whole heap at " + hint + " in " + shortKey(funcKey(fr.fn)) + " (cause: " + w.Why + ")")
 		for _, k := range sortedKeys(e.heapSorts) {
+			if w.preserved(k) {
+				continue
+			}
 			s.havocHeapKey(k, hint)
 		}
 		for k := range s.heap {
-			if _, ok := e.heapSorts[k]; !ok {
+			if _, ok := e.heapSorts[k]; !ok && !w.preserved(k) {
 				s.havocHeapKey(k, hint)
 			}
 		}
